@@ -100,6 +100,11 @@ vp_eq_wake_check(void)
 	if (!g_in_cancel) {
 		/* the wake-up that ends a pass of the expire thread (not the one of nni_aio_expire_add in the race model) */
 		g_passes++;
+		/* no lost timeout: an aio that this pass left on the list (not due yet, or due but beyond the batch of
+		 * NNI_EXPIRE_BATCH) is looked at again no later than its deadline -- the queue's next wake-up time is
+		 * not behind it (a stopping queue does not sleep while anything is listed) */
+		__CPROVER_assert(!nni_list_node_active(&g_a0->a_expire_node) || g_eq->eq_stop || g_eq->eq_next <= g_a0->a_expire, "C02: end of pass: next wake-up not later than the deadline of an aio left on the list");
+		__CPROVER_assert(!nni_list_node_active(&g_a1->a_expire_node) || g_eq->eq_stop || g_eq->eq_next <= g_a1->a_expire, "C02: end of pass: next wake-up not later than the deadline of an aio left on the list");
 		vp_eq_world_finishes();
 	}
 }
